@@ -17,6 +17,7 @@ package vrt
 
 import (
 	"fmt"
+	"reflect"
 	"runtime"
 	"sync"
 	"sync/atomic"
@@ -91,8 +92,10 @@ type thread struct {
 
 type chanState struct {
 	closed bool
-	sendq  []*thread
-	recvq  []*thread
+	cap    int   // logical buffer slots (cap(ch) of the real channel, which is never used)
+	buf    []any // buffered values, oldest first
+	sendq  []*waiter
+	recvq  []*waiter
 }
 
 type exec struct {
@@ -496,21 +499,121 @@ func Go(f func()) {
 	e.yield("go")
 }
 
-func (e *exec) chanLocked(ch any) *chanState {
+func (e *exec) chanLocked(ch any, capacity int) *chanState {
 	cs := e.chans[ch]
 	if cs == nil {
-		cs = &chanState{}
+		cs = &chanState{cap: capacity}
 		e.chans[ch] = cs
 	}
 	return cs
 }
 
-// Send is ch <- v on an unbuffered channel.
+// waiter is a thread parked on one channel operation: a plain send or receive, or one case of
+// a select (then sel is shared by all its cases and the first partner to arrive completes it).
+type waiter struct {
+	t   *thread
+	sel *selWait
+	idx int // case index within the select
+	val any // value offered (send waiters)
+}
+
+type selWait struct {
+	done   bool
+	idx    int
+	val    any
+	ok     bool
+	closed bool // a send case was completed by close(ch): the select panics like a send
+}
+
+func (w *waiter) stale() bool { return w.sel != nil && w.sel.done }
+
+func popLive(q *[]*waiter) *waiter {
+	for len(*q) > 0 {
+		w := (*q)[0]
+		*q = (*q)[1:]
+		if !w.stale() {
+			return w
+		}
+	}
+	return nil
+}
+
+func hasLive(q []*waiter) bool {
+	for _, w := range q {
+		if !w.stale() {
+			return true
+		}
+	}
+	return false
+}
+
+// deliver completes a receive waiter with (v, ok).
+func deliver(w *waiter, v any, ok bool) {
+	if w.sel != nil {
+		w.sel.done, w.sel.idx, w.sel.val, w.sel.ok = true, w.idx, v, ok
+	} else {
+		w.t.val, w.t.ok = v, ok
+	}
+	w.t.state = tRunnable
+}
+
+// release completes a send waiter: its value was taken (ok) or the channel was closed (!ok).
+func release(w *waiter, ok bool) {
+	if w.sel != nil {
+		w.sel.done, w.sel.idx, w.sel.closed = true, w.idx, !ok
+	} else {
+		w.t.ok = ok
+	}
+	w.t.state = tRunnable
+}
+
+// trySendLocked performs a send if it can proceed without blocking.
+func (cs *chanState) trySendLocked(v any) bool {
+	if cs.closed {
+		panic("send on closed channel")
+	}
+	if r := popLive(&cs.recvq); r != nil {
+		deliver(r, v, true)
+		return true
+	}
+	if len(cs.buf) < cs.cap {
+		cs.buf = append(cs.buf, v)
+		return true
+	}
+	return false
+}
+
+// tryRecvLocked performs a receive if it can proceed without blocking.
+func (cs *chanState) tryRecvLocked() (v any, ok, done bool) {
+	if len(cs.buf) > 0 {
+		v = cs.buf[0]
+		cs.buf = cs.buf[1:]
+		if s := popLive(&cs.sendq); s != nil {
+			cs.buf = append(cs.buf, s.val)
+			release(s, true)
+		}
+		return v, true, true
+	}
+	if s := popLive(&cs.sendq); s != nil {
+		v = s.val
+		release(s, true)
+		return v, true, true
+	}
+	if cs.closed {
+		return nil, false, true
+	}
+	return nil, false, false
+}
+
+// Send is ch <- v (unbuffered and buffered channels; the logical buffer has cap(ch) slots).
 func Send[T any](ch chan T, v T) {
 	e := cur
 	if e == nil {
 		ch <- v
 		return
+	}
+	if ch == nil {
+		e.blockForever("send on nil channel")
 	}
 	e.yield("send")
 	e.mu.Lock()
@@ -519,22 +622,27 @@ func Send[T any](ch chan T, v T) {
 		panic(&Abort{e.reason})
 	}
 	me := e.cur
-	cs := e.chanLocked(ch)
-	if cs.closed {
-		e.mu.Unlock()
-		panic("send on closed channel")
-	}
-	if len(cs.recvq) > 0 {
-		r := cs.recvq[0]
-		cs.recvq = cs.recvq[1:]
-		r.val, r.ok = v, true
-		r.state = tRunnable
+	cs := e.chanLocked(ch, cap(ch))
+	sent := false
+	func() {
+		defer func() {
+			if r := recover(); r != nil {
+				e.mu.Unlock()
+				panic(r)
+			}
+		}()
+		sent = cs.trySendLocked(v)
+	}()
+	if sent {
 		e.mu.Unlock()
 		return
 	}
-	me.val = v
-	cs.sendq = append(cs.sendq, me)
+	cs.sendq = append(cs.sendq, &waiter{t: me, val: v})
+	me.ok = true
 	e.blockLocked(me, "chan send")
+	if !me.ok {
+		panic("send on closed channel")
+	}
 }
 
 // RecvOK is v, ok := <-ch.
@@ -544,6 +652,9 @@ func RecvOK[T any](ch chan T) (T, bool) {
 		v, ok := <-ch
 		return v, ok
 	}
+	if ch == nil {
+		e.blockForever("receive from nil channel")
+	}
 	e.yield("recv")
 	e.mu.Lock()
 	if e.dead {
@@ -551,22 +662,17 @@ func RecvOK[T any](ch chan T) (T, bool) {
 		panic(&Abort{e.reason})
 	}
 	me := e.cur
-	cs := e.chanLocked(ch)
+	cs := e.chanLocked(ch, cap(ch))
 	var zero T
-	if len(cs.sendq) > 0 {
-		s := cs.sendq[0]
-		cs.sendq = cs.sendq[1:]
-		v := s.val.(T)
-		s.val = nil
-		s.state = tRunnable
+	if v, ok, done := cs.tryRecvLocked(); done {
 		e.mu.Unlock()
-		return v, true
+		if !ok {
+			return zero, false
+		}
+		tv, _ := v.(T)
+		return tv, true
 	}
-	if cs.closed {
-		e.mu.Unlock()
-		return zero, false
-	}
-	cs.recvq = append(cs.recvq, me)
+	cs.recvq = append(cs.recvq, &waiter{t: me})
 	e.blockLocked(me, "chan receive")
 	// rescheduled: payload was delivered by the sender or by close.
 	if !me.ok {
@@ -596,18 +702,183 @@ func Close[T any](ch chan T) {
 		e.mu.Unlock()
 		panic(&Abort{e.reason})
 	}
-	cs := e.chanLocked(ch)
+	if ch == nil {
+		e.mu.Unlock()
+		panic("close of nil channel")
+	}
+	cs := e.chanLocked(ch, cap(ch))
 	if cs.closed {
 		e.mu.Unlock()
 		panic("close of closed channel")
 	}
 	cs.closed = true
-	for _, r := range cs.recvq {
-		r.val, r.ok = nil, false
-		r.state = tRunnable
+	for {
+		r := popLive(&cs.recvq)
+		if r == nil {
+			break
+		}
+		deliver(r, nil, false)
 	}
-	cs.recvq = nil
+	for {
+		s := popLive(&cs.sendq)
+		if s == nil {
+			break
+		}
+		release(s, false)
+	}
 	e.mu.Unlock()
+}
+
+// blockForever parks the running thread on an operation that can never complete.
+func (e *exec) blockForever(on string) {
+	e.mu.Lock()
+	if e.dead {
+		e.mu.Unlock()
+		panic(&Abort{e.reason})
+	}
+	e.blockLocked(e.cur, on)
+	panic(&Abort{"resumed from " + on})
+}
+
+// SelCase is one communication clause of a select statement.
+type SelCase struct {
+	ch   any           // the channel (map key of the logical channel state); nil interface for a nil channel
+	rv   reflect.Value // the channel as a reflect value (native fallback)
+	send bool
+	val  any
+	cap  int
+}
+
+// CaseSend is "case ch <- v".
+func CaseSend[T any](ch chan T, v T) SelCase {
+	c := SelCase{rv: reflect.ValueOf(ch), send: true, val: v, cap: cap(ch)}
+	if ch != nil {
+		c.ch = ch
+	}
+	return c
+}
+
+// CaseRecv is "case ... <-ch".
+func CaseRecv[T any](ch chan T) SelCase {
+	c := SelCase{rv: reflect.ValueOf(ch), cap: cap(ch)}
+	if ch != nil {
+		c.ch = ch
+	}
+	return c
+}
+
+// SelVal converts the value received by a select to the channel's element type.
+func SelVal[T any](ch chan T, v any) T {
+	tv, _ := v.(T)
+	return tv
+}
+
+// Select is a select statement: it returns the index of the clause that proceeded (-1 for
+// default), and for a receive clause the value and whether it came from a send. When several
+// clauses can proceed the pick is a choice point (Go picks one at random).
+func Select(hasDefault bool, cases ...SelCase) (int, any, bool) {
+	e := cur
+	if e == nil {
+		return nativeSelect(hasDefault, cases)
+	}
+	e.yield("select")
+	e.mu.Lock()
+	if e.dead {
+		e.mu.Unlock()
+		panic(&Abort{e.reason})
+	}
+	me := e.cur
+	states := make([]*chanState, len(cases))
+	var ready []int
+	for i, c := range cases {
+		if c.ch == nil {
+			continue
+		}
+		cs := e.chanLocked(c.ch, c.cap)
+		states[i] = cs
+		if c.send {
+			if cs.closed || hasLive(cs.recvq) || len(cs.buf) < cs.cap {
+				ready = append(ready, i)
+			}
+		} else if len(cs.buf) > 0 || hasLive(cs.sendq) || cs.closed {
+			ready = append(ready, i)
+		}
+	}
+	if len(ready) > 0 {
+		pick := ready[0]
+		if len(ready) > 1 {
+			pick = ready[e.chooseLocked(len(ready), "select", nil)]
+		}
+		cs := states[pick]
+		if cases[pick].send {
+			func() {
+				defer func() {
+					if r := recover(); r != nil {
+						e.mu.Unlock()
+						panic(r)
+					}
+				}()
+				cs.trySendLocked(cases[pick].val)
+			}()
+			e.mu.Unlock()
+			return pick, nil, false
+		}
+		v, ok, _ := cs.tryRecvLocked()
+		e.mu.Unlock()
+		return pick, v, ok
+	}
+	if hasDefault {
+		e.mu.Unlock()
+		return -1, nil, false
+	}
+	sw := &selWait{}
+	n := 0
+	for i, c := range cases {
+		if states[i] == nil {
+			continue
+		}
+		n++
+		if c.send {
+			states[i].sendq = append(states[i].sendq, &waiter{t: me, sel: sw, idx: i, val: c.val})
+		} else {
+			states[i].recvq = append(states[i].recvq, &waiter{t: me, sel: sw, idx: i})
+		}
+	}
+	on := "select"
+	if n == 0 {
+		on = "select with no ready-able case"
+	}
+	e.blockLocked(me, on)
+	if sw.closed {
+		panic("send on closed channel")
+	}
+	return sw.idx, sw.val, sw.ok
+}
+
+func nativeSelect(hasDefault bool, cases []SelCase) (int, any, bool) {
+	rc := make([]reflect.SelectCase, 0, len(cases)+1)
+	for _, c := range cases {
+		if c.send {
+			sv := reflect.ValueOf(c.val)
+			if !sv.IsValid() {
+				sv = reflect.Zero(c.rv.Type().Elem())
+			}
+			rc = append(rc, reflect.SelectCase{Dir: reflect.SelectSend, Chan: c.rv, Send: sv})
+		} else {
+			rc = append(rc, reflect.SelectCase{Dir: reflect.SelectRecv, Chan: c.rv})
+		}
+	}
+	if hasDefault {
+		rc = append(rc, reflect.SelectCase{Dir: reflect.SelectDefault})
+	}
+	i, v, ok := reflect.Select(rc)
+	if hasDefault && i == len(cases) {
+		return -1, nil, false
+	}
+	if cases[i].send || !v.IsValid() {
+		return i, nil, false
+	}
+	return i, v.Interface(), ok
 }
 
 // ThreadID returns the id of the running logical thread (0 = main).
